@@ -292,6 +292,10 @@ class World:
             if not ins:
                 continue
             outs = [(SCRIPTS[s % len(SCRIPTS)], VALUES[v % len(VALUES)]) for s, v in t['outs']]
+            # a fan-out: that many further outputs cycling through scripts and values (output
+            # indices beyond 255 / 65535)
+            for i in range(t.get('fanout') or 0):
+                outs.append((SCRIPTS[(i * 7 + 1) % len(SCRIPTS)], VALUES[(i // 3) % len(VALUES)]))
             tx = TxRec(ins, outs)
             txs.append(tx)
             add_outputs(tx)
